@@ -71,6 +71,10 @@ class Message(SimpleRepr):
 
     """
 
+    # The cycle id is set on the messages sent by synchronous computations
+    # (see SynchronousComputationMixin), it must be kept on the wire.
+    _repr_extra_attrs = ("cycle_id",)
+
     def __init__(self, msg_type, content=None):
         self._msg_type = msg_type
         self._content = content
